@@ -174,8 +174,15 @@ func (s *Session) newEngine() *engine.DefaultEngine {
 	e := engine.NewEngine(s.Cfg, s.Shared.Resource(s.Rec))
 	if f := s.Shared.App.Cfg.First; f != nil {
 		e = e.WithFirst(func(ctx context.Context, sym string, input []byte) (resource.Result, error) {
+			n := len(s.FirstSeen)
 			s.FirstSeen = append(s.FirstSeen, FirstCall{Lang: ctxLang(ctx), Input: string(input)})
-			return resource.Result{Content: f.Content, FlagSet: append([]uint32{}, f.FlagSet...)}, nil
+			r := resource.Result{Content: f.Content, FlagSet: append([]uint32{}, f.FlagSet...)}
+			for _, at := range f.StopAt {
+				if at == n {
+					r.FlagSet = append(r.FlagSet, 6)
+				}
+			}
+			return r, nil
 		})
 	}
 	return e
